@@ -345,17 +345,17 @@ def run(ctx: Ctx):
     T1 = L.TYPES[:4]
     plans = []
     b2, i2 = bank_for("B", 2, 4)
-    plans.append(("B", 2, b2, i2, T2, False, 3, 12 if quick else 250, None))
+    plans.append(("B", 2, b2, i2, T2, False, 3, 12 if quick else 500, None))
     bs, i_s = bank_for("SO", 2, 2)
-    plans.append(("SO", 2, bs, i_s, T1, False, 2, 5 if quick else 80, None))
+    plans.append(("SO", 2, bs, i_s, T1, False, 2, 5 if quick else 160, None))
     bc, ic = bank_for("C2", 2, 2)
-    plans.append(("C2", 2, bc, ic, T1, True, 2, 5 if quick else 80, None))
+    plans.append(("C2", 2, bc, ic, T1, True, 2, 5 if quick else 160, None))
     b3, i3 = bank_for("B", 3, 2)
-    plans.append(("B", 3, b3, i3, T1, False, 2, 2 if quick else 20, 12 if quick else None))
+    plans.append(("B", 3, b3, i3, T1, False, 2, 2 if quick else 40, 12 if quick else None))
     if not quick:
         for name in ("SO", "C2"):
             bb, ii = bank_for(name, 3, 2)
-            plans.append((name, 3, bb, ii, T1, name == "C2", 2, 15, None))
+            plans.append((name, 3, bb, ii, T1, name == "C2", 2, 30, None))
     k = 0
     for name, D, bank, integer, types, axis_free, nmax, n, subset in plans:
         gs_all = group_elements(name, D)
